@@ -22,7 +22,7 @@ type Mutation { saveHuman(name: String!): Human! }
 `
 const vSB = `
 interface Node { id: ID! }
-type Human implements Node { id: ID! phone(cc: Int = 7): String! pets: [Animal!]! }
+type Human implements Node { id: ID! phone(cc: Int = 7): String! fax(cc: Int!): String pets: [Animal!]! }
 type Animal { name: String! owner: Human! kind: Kind }
 enum Kind { CAT DOG }
 type Query { node(id: ID!): Node getAnimals: [Animal!]! }
@@ -144,6 +144,9 @@ func vReadmeOps() []vOp {
 		}},
 		// an explicit null is a value: the declared default does not replace it
 		{q: `query($c: Int = 4, $u: Boolean = true) { me { phone(cc: $c) name(upper: $u) } }`, vars: func() map[string]interface{} { return map[string]interface{}{"c": nil} }},
+		// one variable used at a nullable and at a non-null position
+		{q: `query($c: Int!) { me { phone(cc: $c) fax(cc: $c) } }`, vars: func() map[string]interface{} { return map[string]interface{}{"c": verifInt("var_c", 0, 9)} }},
+		{q: `query($c: Int!) { me { fax(cc: $c) phone(cc: $c) best { phone(cc: $c) } } }`, vars: func() map[string]interface{} { return map[string]interface{}{"c": verifInt("var_c", 0, 9)} }},
 		// a variable argument after an object / list literal argument of the same field
 		{q: `query($k: Int) { findHumans(filter: [{name: "lit"}], grid: [[1]], first: $k) { name phone } }`, vars: func() map[string]interface{} {
 			return map[string]interface{}{"k": verifInt("var_k", 0, 9)}
